@@ -14,7 +14,13 @@ bash $SRC/build_and_run.sh $WT > $SRC/confirm-demo-clean.txt 2>&1; echo "DEMO_CL
 git apply $SRC/patch.diff || { echo "PATCH_DOES_NOT_APPLY"; exit 1; }
 bash $SRC/build_and_run.sh $WT > $SRC/confirm-demo-changed.txt 2>&1; echo "DEMO_CHANGED_EXIT=$?"
 cmake -G Ninja -S $WT -B $WT/_build -DCMAKE_BUILD_TYPE=RelWithDebInfo > /dev/null && cmake --build $WT/_build > $SRC/confirm-build.txt 2>&1; echo "BUILD_EXIT=$?"
-ctest --test-dir $WT/_build -j4 --timeout 900 > $SRC/confirm-ctest.txt 2>&1; echo "CTEST_EXIT=$?"
+ctest --test-dir $WT/_build -j${CTEST_J:-4} --timeout 900 > $SRC/confirm-ctest.txt 2>&1; R=$?
+if [ $R -ne 0 ]; then  # load / memory pressure kills 4 GiB runtime tests: failed ones are run again one at a time
+  cp $SRC/confirm-ctest.txt $SRC/confirm-ctest-first.txt
+  ctest --test-dir $WT/_build --rerun-failed -j1 --timeout 900 > $SRC/confirm-ctest-rerun.txt 2>&1; R=$?
+  echo "RERUN_FAILED_ALONE_EXIT=$R"
+fi
+echo "CTEST_EXIT=$R"
 tail -15 $SRC/confirm-ctest.txt
 cd /
 git -C /repo worktree remove --force $WT
